@@ -29,6 +29,16 @@ Streams (all choices from the run's PRNG):
   free    grammars drawn directly from the productions of the grammar language
           with names from small pools (weird but mostly parseable)
 
+Process state (the property says "any grammar text": in whatever state the process is): before a case the
+module-level state of textX / Arpeggio (cached grammar parser `lang.textX_parsers`, `registration.languages` /
+`metamodels`, the lazily built meta-models of registered languages, the `re` cache) is put back to "just imported";
+30 % of the cases carry a `history` of 1-3 earlier calls of metamodel_from_str (the same text, a valid grammar that
+loads a registered language, texts of every stream, texts the parser refuses, the same text with flipped options); every
+call of the history is judged by the oracle, the last one additionally by the model - whose answer does not depend on
+the history.  The model's inputs (parse tree, table of registered languages) are computed *after* the observation, so the
+harness' own look at a language never builds it before textX needs it.  `reference` statements name the languages the
+environment really registers (textX, questionnaire) with the namespace the grammar then uses (mutation `reflang`).
+
 Lean side: the text is parsed with the grammar parser of the tree under test
 (`ParserPython(lang.textx_model)`); the parse tree is converted into the typed
 tree of `GramLoad.Grammar` (shape violations are reported, never patched) and
@@ -143,7 +153,15 @@ BAD_PARAMS = ["ws", "nows", "split", "nosplit", "split=''", "foo", "noskipws='q'
 BAD_RREL = ["^^", "a..b", "+x:a", "a.", "(a", "'x'", "~", "parent()", "a**", "+:a", ",a", "a,", "parent(1)", "a b"]
 GOOD_RREL = ["a", "^a", "a.b", "a*", "^a*.b", "+m:a", "+p:a", "+mp:a.b", "parent(Model)", "~a", "'x'~a", "..a", ".",
              "(a,b)*.c", "(a)", "a,b", "^", "...", "+pm:^a,b"]
-LANGS = ["textx", "textX", "foo", "no-such-lang", "x_y"]
+LANGS = ["textx", "textX", "foo", "no-such-lang", "x_y", "questionnaire"]
+# languages registered in the environment of the check (entry points of the venv) with some of their class names; the
+# names are only candidates for qualified references - what is registered and which classes exist is observed
+# (`lang_table`) and handed to the model.  Their meta-models are built lazily, on the first lookup in a process.
+REG_LANGS = {
+    "textX": ["TextxModel", "TextxRule", "RuleName", "Sequence", "Choice", "Assignment", "RuleParam", "ImportStm", "ReferenceStm",
+              "ID", "INT", "STRING"],
+    "questionnaire": ["Questionnaire", "Question", "Type", "Choice", "ChoiceOption", "Free", "TextLine", "ID", "INT"],
+}
 TOKENS = ["A", "B", "Model", "R1", "R2", "INT", "ID", "STRING", "OBJECT", "BASETYPE", "NUMBER", "Comment", "x.Y",
           ":", ";", "|", "(", ")", "[", "]", "=", "+=", "*=", "?=", "*", "+", "?", "#", "-", "!", "&", ",", ".", "~", "^",
           "'a'", "'b'", "','", "''", "/x/", "/(/", r"/\d+/", "eolterm", "skipws", "noskipws", "ws", "ws='x'", "split",
@@ -154,6 +172,107 @@ TOKENS = ["A", "B", "Model", "R1", "R2", "INT", "ID", "STRING", "OBJECT", "BASET
 
 TOKEN_RE = re.compile(
     r"""\s+|//[^\n]*|/\*.*?\*/|'(?:\\'|[^'])*'|"(?:\\"|[^"])*"|/(?:\\/|[^/\n])*/|[\w.]+|\+=|\*=|\?=|.""", re.S)
+
+
+# ---------------------------------------------------------------------------
+# process state: every case is observed after exactly the history it lists
+# ---------------------------------------------------------------------------
+# metamodel_from_str is not a function of its arguments alone: textX keeps process-wide state (the cached grammar
+# parser `lang.textX_parsers` with the input / parse tree / error state of its last run, `registration.languages`,
+# `registration.metamodels` and `TextXMetaMetaModel._metamodel` with the lazily built meta-models of registered
+# languages, the regex cache of `re`).  The property quantifies over every grammar text in whatever state the process
+# is in, so the state is part of the case: it is put back to "textX just imported" before a case and then produced by
+# the case's own `history` (earlier calls of metamodel_from_str).  Same technique as the C20 / C22 / C05 checks
+# (own copy: other properties' files are not imported).
+_PRISTINE = None
+_PLAINT = (int, bool, str, float, type(None), tuple, frozenset, bytes)
+
+
+def _state_cells():
+    import sys as _sys
+
+    out = []
+    for mname, mod in sorted(_sys.modules.items()):
+        if mod is None or not (mname == "textx" or mname.startswith("textx.") or mname == "arpeggio"
+                               or mname.startswith("arpeggio.")):
+            continue
+        for k, v in list(vars(mod).items()):
+            if k.startswith("__"):
+                continue
+            if type(v) in (dict, list, set) or type(v) in _PLAINT or (
+                    hasattr(v, "cache_clear") and getattr(v, "__module__", None) == mname):
+                out.append((mod, mname, k, v))
+            elif isinstance(v, type) and getattr(v, "__module__", None) == mname:
+                for ck, cv in list(vars(v).items()):
+                    if not ck.startswith("__") and (type(cv) in (dict, list, set) or type(cv) in _PLAINT):
+                        out.append((v, f"{mname}.{v.__name__}", ck, cv))
+    return out
+
+
+def reset_process_state():
+    """module-level / class-level plain state of the textX and Arpeggio modules, functools caches and the regex cache
+    back to what they were when the code under test had just been imported"""
+    global _PRISTINE
+    use_repo()
+    import arpeggio  # noqa: F401
+    import textx  # noqa: F401
+    import textx.lang  # noqa: F401
+    import textx.metamodel  # noqa: F401
+    import textx.model  # noqa: F401
+    import textx.registration  # noqa: F401
+    import textx.scoping  # noqa: F401
+    import textx.scoping.providers  # noqa: F401
+
+    re.purge()
+    cells = _state_cells()
+    if _PRISTINE is None:
+        _PRISTINE = {}
+        for owner, oname, k, v in cells:
+            if not hasattr(v, "cache_clear"):
+                _PRISTINE[(oname, k)] = (v, copy.copy(v))
+        return
+    for owner, oname, k, v in cells:
+        if hasattr(v, "cache_clear"):
+            v.cache_clear()
+            continue
+        ref = _PRISTINE.get((oname, k))
+        if ref is None:
+            continue
+        saved = ref[1]
+        if type(saved) in _PLAINT:
+            if type(v) is not type(saved) or v != saved:
+                setattr(owner, k, saved)
+            continue
+        if type(v) is not type(saved):          # a container rebound to something else (`languages = None` -> dict is the
+            setattr(owner, k, copy.copy(saved))  # other direction and handled above)
+            continue
+        if ref[0] is not v:
+            # the name was rebound to a new container (registration.clear_language_registrations): restore the content
+            if type(v) is list:
+                v[:] = saved
+            else:
+                v.clear()
+                v.update(saved)
+            continue
+        if v == saved:
+            continue
+        if type(v) is list:
+            v[:] = saved
+        else:
+            v.clear()
+            v.update(saved)
+
+
+def built_languages():
+    """names of the registered languages whose meta-model exists in this process right now (read only)"""
+    import textx.registration as reg
+
+    out = []
+    for k, v in list(reg.metamodels.items()):
+        if type(v).__name__ == "TextXMetaMetaModel" and getattr(v, "_metamodel", None) is None:
+            continue
+        out.append(k)
+    return sorted(out)
 
 
 def tokenize(text):
@@ -785,6 +904,67 @@ def m_reference(g, rng):
         r["body"] = {"k": "seq", "xs": [r["body"], node]}
 
 
+def _reflang_parts(rng):
+    """(`reference` statement, namespace the grammar can use, class-name candidates of the language)"""
+    if rng.chance(0.85):
+        lang = rng.choice(sorted(REG_LANGS))
+        classes = REG_LANGS[lang]
+        written = rng.weighted([(lang, 5), (lang.lower(), 3), (lang.upper(), 1), (lang.capitalize(), 1)])
+    else:
+        written = rng.choice(["foo", "no-such-lang", "x_y", "textx2"])
+        classes = ["Model", "Foo", "ID"]
+    alias = rng.weighted([(None, 4), ("t", 3), ("x", 1), ("q", 1), (written.swapcase(), 1)])
+    return f"reference {written}" + (f" as {alias}" if alias else ""), alias or written, classes
+
+
+def m_reflang(g, rng):
+    """A grammar that uses another registered language: `reference <language> [as alias]` and qualified names that
+    use the namespace the statement really declares, for classes the language has and for classes it does not have, in
+    every position a rule name / class name can stand.  The meta-model of the referenced language is built on demand
+    *during* the second pass of this grammar (a nested meta-model construction); with `then` another defect of the
+    grammar is reported after that lookup (undefined rule, unknown class, circular reference, `?=` misuse)."""
+    stm, ns, classes = _reflang_parts(rng)
+    g.setdefault("stms", []).append(stm)
+    if rng.chance(0.15):
+        g["stms"].append(_reflang_parts(rng)[0])      # a second language (or the same one twice, other alias)
+    names = [r["name"] for r in g["rules"]]
+    for _ in range(rng.weighted([(1, 5), (2, 3), (3, 1)])):
+        cls = rng.weighted([(rng.choice(classes), 6), ("Nope", 3), (rng.choice(names), 1), ("nope.Nope", 1)])
+        nm = ns + "." + cls
+        if rng.chance(0.1):
+            nm = rng.choice(["zz", ns.swapcase(), "__base__"]) + "." + cls     # a namespace nobody declared
+        c = rng.weighted([("ctx", 6), ("link-cls", 3), ("alias-rule", 2), ("alt-rule", 1)])
+        if c == "ctx":
+            node = _ref_in_context(rng, nm, names)
+        elif c == "link-cls":
+            node = {"k": "asgn", "attr": rng.choice(["q", "l"]), "op": rng.choice(["=", "+=", "*="]),
+                    "rhs": {"k": "link", "cls": nm, "rule": rng.choice([None, None, "ID", ns + ".ID"]), "rrel": None,
+                            "sepch": rng.choice([":", "|"])}, "sep": None, "eol": False}
+        elif c == "alias-rule":
+            g["rules"].insert(rng.randint(1, len(g["rules"])), {"name": "Imp", "params": {}, "body": {"k": "ref", "name": nm}})
+            node = _ref_in_context(rng, "Imp", names)
+        else:
+            g["rules"].insert(rng.randint(1, len(g["rules"])),
+                              {"name": "Imp", "params": {}, "body": {"k": "alt", "xs": [{"k": "ref", "name": nm},
+                                                                                         {"k": "ref", "name": rng.choice(names)}]}})
+            node = _ref_in_context(rng, "Imp", names)
+        host = rng.choice(g["rules"][: rng.choice([1, len(g["rules"])])])
+        host["body"] = {"k": "seq", "xs": [host["body"], node] if rng.chance(0.7) else [node, host["body"]]}
+    then = rng.weighted([(None, 5), ("undef", 3), ("cls", 2), ("cycle", 2), ("bool", 1)])
+    last = g["rules"][-1]
+    if then == "undef":
+        last["body"] = {"k": "seq", "xs": [last["body"], {"k": "ref", "name": "Undef"}]}
+    elif then == "cls":
+        last["body"] = {"k": "seq", "xs": [last["body"], {"k": "asgn", "attr": "u", "op": "=", "rhs":
+                                                          {"k": "link", "cls": "Nope", "rule": None, "rrel": None}, "sep": None, "eol": False}]}
+    elif then == "cycle":
+        g["rules"].append({"name": "Loop", "params": {}, "body": {"k": "ref", "name": "Loop"}})
+        last["body"] = {"k": "seq", "xs": [last["body"], {"k": "ref", "name": "Loop"}]}
+    elif then == "bool":
+        last["body"] = {"k": "seq", "xs": [last["body"], {"k": "asgn", "attr": "bb", "op": "?=", "rhs": {"k": "str", "v": "b"}, "sep": None, "eol": False},
+                                           {"k": "asgn", "attr": "bb", "op": "=", "rhs": {"k": "ref", "name": "INT"}, "sep": None, "eol": False}]}
+
+
 def m_reserved_name(g, rng):
     nm = rng.choice(["__asgn_x", "__asgn", "__asgn_plain", "__asgn_optional", "__asg", "_asgn_x", "sep", "Model"])
     if rng.chance(0.5):
@@ -885,7 +1065,7 @@ def m_nest(g, rng):
 AST_MUTATIONS = [
     ("undef-ref", m_undef_ref, 3), ("drop-rule", m_drop_rule, 2), ("dup-rule", m_dup_rule, 3), ("alias", m_alias_cycle, 3),
     ("alias-graph", m_alias_graph, 7), ("rewire", m_rewire, 3), ("bad-regex", m_bad_regex, 1), ("regex", m_regex, 6), ("bad-escape", m_bad_escape, 3), ("bad-param", m_bad_param, 4), ("bad-mods", m_bad_mods, 3),
-    ("bool-asgn", m_bool_asgn, 4), ("parent", m_parent_attr, 1), ("link", m_link, 6), ("reference", m_reference, 3),
+    ("bool-asgn", m_bool_asgn, 4), ("parent", m_parent_attr, 1), ("link", m_link, 6), ("reference", m_reference, 3), ("reflang", m_reflang, 5),
     ("reserved", m_reserved_name, 2), ("import", m_import, 1), ("hash", m_hash_single, 2), ("base-named", m_base_named, 2),
     ("nest", m_nest, 1), ("comment-alias", m_comment_alias, 3),
 ]
@@ -904,6 +1084,7 @@ class Free:
     def __init__(self, rng):
         self.r = rng
         self.alias_p = rng.choice([0, 0, 0.15, 0.5, 0.8])
+        self.NAMES = list(Free.NAMES)
 
     def smatch(self):
         r = self.r
@@ -980,6 +1161,11 @@ class Free:
             pre += "import foo\n"
         if r.chance(0.15):
             pre += _reference_stm(r) + "\n"
+        elif r.chance(0.12):
+            # a referenced language and names that use the namespace it declares
+            stm, ns, classes = _reflang_parts(r)
+            pre += stm + "\n"
+            self.NAMES += [ns + "." + r.choice(classes + ["Nope"]) for _ in range(4)]
         return pre + "\n".join(self.rule() for _ in range(r.randint(1, 7 if self.alias_p else 5))) + "\n"
 
 
@@ -1220,6 +1406,38 @@ def lang_table(tree):
     return out
 
 
+def qualified_uses(tree, langs):
+    """registered languages of the `reference` statements whose namespace some qualified name of the grammar uses
+    (coverage statistic: the grammars during whose second pass the meta-model of another language is looked up)"""
+    ns = {}
+    for st in tree["stms"]:
+        if st[0] == "ref" and langs.get(st[1]) is not None:
+            ns[st[2] or st[1]] = st[1]
+    if not ns:
+        return []
+    names = []
+
+    def choice(c):
+        for seq in c:
+            for x in seq:
+                e = x["e"]
+                if e["k"] == "ref":
+                    names.append(e["n"])
+                elif e["k"] == "grp":
+                    choice(e["c"])
+                elif e["k"] == "asgn":
+                    if e["rhs"]["k"] == "ref":
+                        names.append(e["rhs"]["n"])
+                    elif e["rhs"]["k"] == "obj":
+                        names.append(e["rhs"]["cls"])
+                        if e["rhs"]["rule"]:
+                            names.append(e["rhs"]["rule"])
+
+    for r in tree["rules"]:
+        choice(r["b"])
+    return sorted({ns[n.rsplit(".", 1)[0]] for n in names if "." in n and n.rsplit(".", 1)[0] in ns})
+
+
 def paren_depth(text):
     d = m = 0
     for t in tokenize(text):
@@ -1382,7 +1600,11 @@ class Prop(Check):
             "(valid or with one of 16 flaws, repetition bounds of every magnitude up to 10**30, nesting beyond the interpreter "
             "stack) in every place a regex match can stand, generated string escapes, bad rule parameters and modifiers, bool "
             "assignments, `parent`, links, reference statements, reserved names, import, `#`, base-type names, nesting, Comment rule as a rule reference), "
-            "token-level mutations, and grammars drawn from the productions of the grammar language; non-trivial = the text "
+            "token-level mutations, and grammars drawn from the productions of the grammar language; `reference` statements to the "
+            "languages registered in the environment (textX, questionnaire: meta-model built on demand during the second pass) "
+            "with qualified names in the declared namespace; process state: each case starts from freshly imported textX, 30 % "
+            "after a generated history of 1-3 earlier metamodel_from_str calls (same text, language-loading grammar, any stream, "
+            "parser-refused text, flipped options), every call judged; non-trivial = the text "
             "gets past the grammar parser and the visitor or the second pass reports an error (an error path inside "
             "lang.py / metamodel.py is exercised)")
     MODELLED = ("hand-modelled: TextXVisitor first pass (rule names, rule params, string / regex matches, obj refs, assignments, "
@@ -1399,6 +1621,9 @@ class Prop(Check):
         "codecs.decode only ValueError subclasses; Python warnings are not turned into errors; the subclass table the "
         "handler specs use (PyExc.isa, C23_handlers_spec) is compared with issubclass of the running interpreter on every run",
         "metamodel_from_str is called with a str and no file_name, classes, or debug",
+        "process state beyond the module-level / class-level plain attributes of the textx and arpeggio modules, functools "
+        "caches and the re cache (what reset_process_state restores) does not influence metamodel_from_str; histories are "
+        "sequences of metamodel_from_str calls only (no models parsed, no registrations changed by the user)",
         "CPython recursion limit is not reached (nesting depth of generated grammars <= 40; deeper: known finding KF-C23-1; "
         "chains of rule references of generated grammars <= 20 rules; some hundred: known finding KF-C23-2)",
     ]
@@ -1410,58 +1635,96 @@ class Prop(Check):
         g["stms"] = []
         return g
 
+    def one_text(self, r):
+        """one grammar text of one of the streams -> (text, origin)"""
+        kind = r.weighted([("valid", 12), ("ast", 50), ("tok", 18), ("free", 20)])
+        return self._text_of_kind(r, kind)
+
+    def _text_of_kind(self, r, kind):
+        if kind == "free":
+            return Free(r).grammar(), "free"
+        g = self.base_grammar(r)
+        origin = "valid"
+        if kind == "ast" or (kind == "tok" and r.chance(0.3)):
+            names = []
+            for _ in range(r.weighted([(1, 6), (2, 3), (3, 1)])):
+                nm, fn, _w = r.weighted([((a, b, c), c) for (a, b, c) in AST_MUTATIONS])
+                fn(g, r)
+                names.append(nm)
+            origin = "ast:" + "+".join(names)
+        text = render_grammar(g)
+        if kind == "tok":
+            toks = tokenize(text)
+            ops = []
+            for _ in range(r.weighted([(1, 6), (2, 3), (3, 1)])):
+                op = r.choice(["drop", "dup", "swap", "ins", "ins"])
+                ops.append(op)
+                if not toks:
+                    toks = [r.choice(TOKENS)]
+                    continue
+                j = r.below(len(toks))
+                if op == "drop":
+                    del toks[j]
+                elif op == "dup":
+                    toks.insert(j, toks[j])
+                elif op == "swap" and len(toks) > 1:
+                    k = (j + 1) % len(toks)
+                    toks[j], toks[k] = toks[k], toks[j]
+                else:
+                    toks.insert(j, r.choice(TOKENS))
+            text = join_tokens(toks)
+            origin = ("tok:" if origin == "valid" else origin + "|tok:") + "+".join(ops)
+        return text, origin
+
+    def history(self, r, text, opts):
+        """Earlier calls of metamodel_from_str in the same process (oldest first).  A step is: the case's own text
+        (the same grammar loaded twice; its first load may have failed), a valid grammar that uses one of the
+        registered languages (its meta-model then exists before the case needs it), any text of the four streams
+        (valid / mutated / token-damaged / free: the cached grammar parser and the registries are left behind by a
+        load that succeeded or failed at any stage), a text the grammar parser refuses, or the case's text with the
+        options flipped."""
+        steps = []
+        for i in range(r.weighted([(1, 6), (2, 3), (3, 1)])):
+            rr = r.fork(f"step{i}")
+            k = rr.weighted([("same", 3), ("warm", 3), ("any", 6), ("reflang", 2), ("nomatch", 1), ("flip", 1)])
+            o = {"autokwd": rr.chance(0.2), "ignore_case": rr.chance(0.2)}
+            if k == "same":
+                steps.append({"text": text, "opts": dict(opts), "kind": k})
+            elif k == "flip":
+                steps.append({"text": text, "opts": {"autokwd": not opts.get("autokwd"), "ignore_case": not opts.get("ignore_case")},
+                              "kind": k})
+            elif k == "warm":
+                stm, ns, classes = _reflang_parts(rr)
+                steps.append({"text": f"{stm}\nW: w+={ns}.{rr.choice(classes)} 'w';\n", "opts": o, "kind": k})
+            elif k == "reflang":
+                g = self.base_grammar(rr)
+                m_reflang(g, rr)
+                steps.append({"text": render_grammar(g), "opts": o, "kind": k})
+            elif k == "nomatch":
+                steps.append({"text": rr.choice(["", "A: ;", "A 'a';", "A: 'a'", "reference\nA: 'a';", "A: (b=INT;", "\x00"]), "opts": o,
+                              "kind": k})
+            else:
+                t, _origin = self.one_text(rr)
+                steps.append({"text": t, "opts": o, "kind": k})
+        return steps
+
     def gen(self, rng, n, tier):
         yield {"text": "", "opts": {}, "origin": "isa-table", "isa_table": True}
         for i in range(n):
             r = rng.fork(f"case{i}")
             kind = r.weighted([("valid", 12), ("ast", 50), ("tok", 18), ("free", 20)])
             opts = {"autokwd": r.chance(0.2), "ignore_case": r.chance(0.2)}
-            if kind == "free":
-                text = Free(r).grammar()
-                origin = "free"
-            else:
-                g = self.base_grammar(r)
-                origin = "valid"
-                if kind == "ast" or (kind == "tok" and r.chance(0.3)):
-                    names = []
-                    for _ in range(r.weighted([(1, 6), (2, 3), (3, 1)])):
-                        nm, fn, _w = r.weighted([((a, b, c), c) for (a, b, c) in AST_MUTATIONS])
-                        fn(g, r)
-                        names.append(nm)
-                    origin = "ast:" + "+".join(names)
-                text = render_grammar(g)
-                if kind == "tok":
-                    toks = tokenize(text)
-                    ops = []
-                    for _ in range(r.weighted([(1, 6), (2, 3), (3, 1)])):
-                        op = r.choice(["drop", "dup", "swap", "ins", "ins"])
-                        ops.append(op)
-                        if not toks:
-                            toks = [r.choice(TOKENS)]
-                            continue
-                        j = r.below(len(toks))
-                        if op == "drop":
-                            del toks[j]
-                        elif op == "dup":
-                            toks.insert(j, toks[j])
-                        elif op == "swap" and len(toks) > 1:
-                            k = (j + 1) % len(toks)
-                            toks[j], toks[k] = toks[k], toks[j]
-                        else:
-                            toks.insert(j, r.choice(TOKENS))
-                    text = join_tokens(toks)
-                    origin = ("tok:" if origin == "valid" else origin + "|tok:") + "+".join(ops)
-            yield {"text": text, "opts": opts, "origin": origin}
+            text, origin = self._text_of_kind(r, kind)
+            case = {"text": text, "opts": opts, "origin": origin}
+            # the state of the process is part of the case: nothing loaded before (most cases), or a history
+            if r.fork("hist?").chance(0.3):
+                case["history"] = self.history(r.fork("history"), text, opts)
+            yield case
 
     # ---- implementation ---------------------------------------------------
     def impl(self, case):
         use_repo()
-        import traceback
-        import warnings
-
         from arpeggio import NoMatch
-        from textx import metamodel_from_str
-        from textx.exceptions import TextXError
 
         if case.get("isa_table"):
             # the subclass table the handler specs (C23_handlers_spec) rest on, from the running interpreter
@@ -1469,7 +1732,22 @@ class Prop(Check):
         text, opts = case["text"], case.get("opts", {})
         ic = bool(opts.get("ignore_case"))
         obs = {"tree": None, "langs": {}}
-        # the model's input: parse tree of the grammar parser, typed
+        # The observation comes first and starts from the state "textX just imported": what this worker process did
+        # before (earlier cases, the harness' own look at the registered languages) must neither hide nor fake a
+        # failure.  The history of the case is produced by the case itself.
+        reset_process_state()
+        steps = []
+        for st in case.get("history") or []:
+            so = {}
+            self._observe(st["text"], st.get("opts") or {}, so)
+            steps.append(so)
+        try:
+            obs["built_before"] = built_languages()
+        except Exception as e:  # the registry of another shape: reported with the evidence, never fatal
+            obs["built_before"] = ["?" + type(e).__name__]
+        self._observe(text, opts, obs)
+        # the model's input (computed after the observation, with the harness' own parser object): parse tree of the
+        # grammar parser, typed; registered languages
         try:
             pt = grammar_parser().parse(text)
             try:
@@ -1481,7 +1759,29 @@ class Prop(Check):
             obs["tree"] = None
         except RecursionError:
             obs["parse_recursion"] = True
-        # the observation
+        for st, so in zip(case.get("history") or [], steps):
+            # only what the oracle needs for a step: is an `import` statement in the text (the documented exception)
+            so["has_import"] = False
+            if so.get("out") == "py:AssertionError":
+                try:
+                    spt = grammar_parser().parse(st["text"])
+                    so["has_import"] = any(c.rule_name == "import_or_reference_stm" and _kids(c)[0].rule_name == "import_stm"
+                                           for c in _kids(spt))
+                except Exception:
+                    pass
+        if steps:
+            obs["steps"] = steps
+        return obs
+
+    def _observe(self, text, opts, obs):
+        """one call of metamodel_from_str -> obs["out"] (+ exc / msg / has_msg / where)"""
+        import traceback
+        import warnings
+
+        from textx import metamodel_from_str
+        from textx.exceptions import TextXError
+
+        ic = bool(opts.get("ignore_case"))
         try:
             with warnings.catch_warnings():
                 warnings.simplefilter("ignore")  # FutureWarning / DeprecationWarning of re / codecs: not printed, never raised
@@ -1547,6 +1847,15 @@ class Prop(Check):
         if "shape_error" in obs:
             return ("the parse tree of the grammar parser does not have the shape the model is stated for: "
                     + obs["shape_error"])
+        # every call of the case's history is a grammar text given to metamodel_from_str as well
+        for i, so in enumerate(obs.get("steps") or []):
+            o = so.get("out", "")
+            if o.startswith("py:") and not (o == "py:AssertionError" and so.get("msg") == IMPORT_MSG and so.get("has_import")):
+                return (f"history step {i}: metamodel_from_str raised {so.get('exc')} ({so.get('msg', '')!r}"
+                        f"{' in ' + so['where'] if so.get('where') else ''}), not a TextXError")
+            if o != "ok" and not o.startswith("py:") and not so.get("has_msg"):
+                return f"history step {i}: {so.get('exc')} raised without a message"
+        after = f" (after {len(obs['steps'])} earlier call(s) in the process)" if obs.get("steps") else ""
         out = obs["out"]
         if out == "ok":
             return None
@@ -1555,9 +1864,9 @@ class Prop(Check):
             if (out == "py:AssertionError" and obs.get("msg") == IMPORT_MSG and tree and ["imp"] in tree["stms"]):
                 return None  # the documented exception: import in a grammar given as a string
             return (f"metamodel_from_str raised {obs.get('exc')} ({obs.get('msg', '')!r}"
-                    f"{' in ' + obs['where'] if obs.get('where') else ''}), not a TextXError")
+                    f"{' in ' + obs['where'] if obs.get('where') else ''}), not a TextXError{after}")
         if not obs.get("has_msg"):
-            return f"{obs.get('exc')} raised without a message"
+            return f"{obs.get('exc')} raised without a message{after}"
         return None
 
     def nontrivial(self, case, obs):
@@ -1574,6 +1883,18 @@ class Prop(Check):
         return None
 
     def shrink(self, case):
+        hist = case.get("history") or []
+        if hist:
+            yield {k: v for k, v in case.items() if k != "history"}
+            if len(hist) > 1:
+                for i in range(len(hist)):
+                    yield dict(case, history=hist[:i] + hist[i + 1:], origin="shrunk")
+            # a step as the case itself, after the steps before it (the failure may sit in the history)
+            for i in range(len(hist) - 1, -1, -1):
+                c = dict(case, text=hist[i]["text"], opts=hist[i].get("opts") or {}, history=hist[:i], origin="shrunk")
+                if not hist[:i]:
+                    del c["history"]
+                yield c
         toks = tokenize(case["text"])
         lines = case["text"].split("\n")
         if len(lines) > 2:
@@ -1605,6 +1926,7 @@ class Prop(Check):
 
     def sample_view(self, case, obs):
         return {"text": case["text"][:400], "opts": case.get("opts"), "origin": case.get("origin"),
+                "history": [(st.get("kind"), st["text"][:80]) for st in case.get("history") or []],
                 "impl": {k: v for k, v in obs.items() if k not in ("tree", "langs")}}
 
     def extra_search(self, rng, tier, broken):
@@ -1633,6 +1955,23 @@ class Prop(Check):
                 sh = alias_shape(o["tree"])
                 if sh:
                     alias[sh] = alias.get(sh, 0) + 1
+        lazy, hist = {}, {"cases_with_history": 0, "steps": 0}
+        for c, o in zip(cases, obs):
+            if not isinstance(o, dict) or "out" not in o:
+                continue
+            if c.get("history"):
+                hist["cases_with_history"] += 1
+                hist["steps"] += len(c["history"])
+                for st, so in zip(c["history"], o.get("steps") or []):
+                    key = "step:" + st.get("kind", "?") + ":" + so.get("out", "?").split(":")[0]
+                    hist[key] = hist.get(key, 0) + 1
+            if o.get("tree"):
+                used = qualified_uses(o["tree"], o.get("langs") or {})
+                for lang in used:
+                    key = (f"{lang.lower()}:{'built-before' if lang.lower() in (o.get('built_before') or []) else 'cold'}:"
+                           + o["out"].split(":")[0])
+                    lazy[key] = lazy.get(key, 0) + 1
         return {"distribution": dist, "streams": origin, "texts_past_the_parser": parsed, "error_sites": where,
+                "histories": hist, "qualified_uses_of_registered_languages": lazy,
                 "second_pass_order_open": multi, "regex_literals_by_compile_outcome": regex,
                 "grammars_by_alias_graph_shape": alias}
